@@ -4,7 +4,8 @@
     under exactly the same valuations, whatever answers the heuristic gave. *)
 From PM Require Import Model.Prelude Model.Domain Model.Automaton
   Model.Traversal Model.DomString Model.DomMatrix Cert.LabCheck Cert.WinCheck Proofs.AbsEquiv Proofs.StringExact Proofs.MatrixExact Properties.C03
-  Model.DomPGKeys Model.DomPG Cert.WfCheck Cert.PGCert Cert.D10Witness.
+  Model.DomPGKeys Model.DomPG Cert.WfCheck Cert.PGCert Cert.D10Witness
+  Model.DomPGKeys Model.DomPG Model.DomPGPattern Cert.PGCert Cert.WfCheck Proofs.PGSingleGood Proofs.PGAgree.
 
 Theorem c04_heuristic_independent_acceptance :
   forall (K V M H P : Type) (D : DomOps K V M H P), DomEq D ->
@@ -69,7 +70,34 @@ Theorem c04_portgraph_runs_differ_refuted :
   /\ exists m, run pg_dom 2000 d10_never d10_host = Ok [(1%N, m)].
 Proof. vm_compute. repeat split; eauto. Qed.
 
+(** Port graphs, where the property does hold (it is refuted in general,
+    c04_portgraph_runs_differ_refuted: the known class D10): two automata - any
+    heuristics, any pattern lists (also C03 / C06: alone or together, another
+    order) - over single-root keys that both contain the good pattern P and pass
+    the certificates report the same matches of P: whatever the first reports, the
+    second reports with the same values on the keys it records for P.
+    ([lab_ok]: soundness of the first; [wf_check], [cert_complete],
+    [aut_single_root], [match_keys_in]: completeness of the second; swap the roles
+    for the converse.) *)
+Theorem c04_portgraph_runs_agree_on_single_root_pattern_sets :
+  forall (P : pghost) (root : N) cs nk (H : pghost)
+         (A1 : automaton pgkey pgpred) (L1 : labelling) css1 i1 fuel1 ms1 b1
+         (A2 : automaton pgkey pgpred) rk2 ids2 css2 pres2 i2 fuel2 ms2,
+    pg_cvec_full P root = Ok (cs, nk) -> lines_cover P root = true -> lines_sound P root = true ->
+    nodes_keyed P nk = true -> keys_distinct nk = true -> pg_good_pattern P root cs nk = true ->
+    root_linked P root = true -> pg_host_wfb P = true -> pg_host_wfb H = true ->
+    lab_ok pg_dom (fun _ => true) pg_atoms A1 L1 css1 = true -> nth_error css1 i1 = Some cs ->
+    run pg_dom fuel1 A1 H = Ok ms1 -> In (N.of_nat i1, b1) ms1 ->
+    wf_check pg_dom A2 rk2 ids2 = true -> cert_complete pg_entails pg_refutes A2 css2 pres2 = true ->
+    nth_error css2 i2 = Some cs -> nth_error pres2 i2 = Some true ->
+    aut_single_root A2 = true -> match_keys_in nk A2 (N.of_nat i2) = true ->
+    run pg_dom fuel2 A2 H = Ok ms2 ->
+    exists st keys b2, In st (au_states A2) /\ In (N.of_nat i2, keys) (a_matches st) /\ In (N.of_nat i2, b2) ms2
+      /\ forall k, In k keys -> pgget b2 k = pgget b1 k.
+Proof. exact pg_runs_agree. Qed.
+
 Print Assumptions c04_heuristic_independent_acceptance.
 Print Assumptions c04_portgraph_runs_differ_refuted.
 Print Assumptions c04_matrix_runs_agree.
 Print Assumptions c04_string_runs_agree.
+Print Assumptions c04_portgraph_runs_agree_on_single_root_pattern_sets.
